@@ -124,6 +124,35 @@ func c06CorpusScripts() map[string][]string {
 			"upd "+sg(A[0])+" "+S+" ? none",
 			recv(sg(A[0]), hxs(c06SUp), 1, 1),
 		),
+		// every branch of RecvPacket that writes an acknowledgement records the REGISTERED counterparty address:
+		// callback ok (kind 1), callback fails at EVM level (2 undecodable call data, 4 failing post-tx hook),
+		// callback returns a code (3), destination chain without client (own-name client, below governance)
+		"ack-classes-fee-recipient": append(append([]string{}, head...),
+			"mkclient "+tssa+" tss "+hxs(A[1].lower),
+			"mkclient "+T+" tss "+hxs(A[1].lower),
+			reg(A[1].lower, []string{"nocl", "tss-a", c06T}, []string{"wrong-chain-address", "0xfee0000000000000000000000000000000000003", "own-name-address"}),
+			fmt.Sprintf("recv %s %s %s 1 1 0 ?", sg(A[1]), tssa, T),
+			fmt.Sprintf("recv %s %s %s 2 2 0 ?", sg(A[1]), tssa, T),
+			fmt.Sprintf("recv %s %s %s 3 3 0 ?", sg(A[1]), tssa, T),
+			fmt.Sprintf("recv %s %s %s 4 4 0 ?", sg(A[1]), tssa, T),
+			fmt.Sprintf("recv %s %s %s 501 2 0 ?", sg(A[1]), T, hxs("nocl")),
+			fmt.Sprintf("recv %s %s %s 502 1 0 ?", sg(A[1]), T, tssa),
+		),
+		// a re-registration with the SAME address list and another chain list of the same length is a new registration
+		"reregistration-same-addresses-other-chains": append(append([]string{}, head...),
+			"mkclient "+tssa+" tss "+hxs(A[0].lower),
+			reg(A[0].lower, []string{c06S, "nocl"}, []string{"addr-one", "addr-two"}),
+			recv(sg(A[0]), S, 1, 1),
+			reg(A[0].lower, []string{"tss-a", c06S}, []string{"addr-one", "addr-two"}),
+			"q "+S+" "+hxs(A[0].lower)+" "+hxs("ADDR-TWO"),
+			"q "+hxs("nocl")+" "+hxs(A[0].lower)+" "+hxs("addr-two"),
+			recv(sg(A[0]), S, 2, 1),
+			recv(sg(A[0]), tssa, 1, 0),
+			reg(A[0].lower, []string{"nocl", "tss-b"}, []string{"addr-one", "addr-two"}),
+			recv(sg(A[0]), S, 3, 1),
+			"upd "+sg(A[0])+" "+S+" ? none",
+			recv(sg(A[0]), tssa, 2, 0),
+		),
 		// the contract level: call data inside a relayed packet and through `execute`
 		"evm-nested-paths": {
 			"evmreset",
